@@ -323,3 +323,13 @@ Fixpoint dedup (cur : option (Z * Z)) (ps : list (Z * Z)) (starts : list bool) :
 Definition m_canon (d : dty) (ndim : Z) (ps : list (Z * Z)) : list (Z * Z) :=
   let s1 := if m_sorted_test d ndim (map fst ps) then ps else stable_sort ps in
   dedup None s1 (true :: m_dup_mask d ndim (map fst s1)).
+
+(* ---------------------------------------------------------------- _dot, COO @ COO: CSR row pointer of an
+   operand (rows = shape[0], rc = its row coordinates), allocated in the generated s_dot_indptr_dtype *)
+Definition m_dot_indptr (d : dty) (rows : Z) (rc : list Z) : tarr :=
+  assign_into (s_dot_indptr_dtype d)
+              (mkT (DInt i64) (0 :: cumsum_from 0 (map (fun r => count_eq r rc) (zrange rows)))).
+
+(* ---------------------------------------------------------------- COO.__init__ on an array without stored
+   elements: the coordinate dtype that results from a supplied (empty) coordinate array of dtype d *)
+Definition m_ctor_empty_dtype (d : dty) : dty := s_ctor_empty_dtype d.
